@@ -191,18 +191,10 @@ Theorem C06_div_tuning : forall d1 k1 j1 d2 k2 j2 u v,
 Proof. exact div_threshold_independent. Qed.
 Print Assumptions C06_div_tuning.
 
-(* NOT CLOSED (covered by the correspondence run only):
-
-   C06_div : forall thrD thrK junk u v, 1 <= thrK -> 4 <= thrD ->
-     words_ok u = true -> words_ok v = true -> norm u = u -> norm v = v ->
-     div thrD thrK junk u v = if (length v =? 0)%nat then None else Some (dec_quo u v, dec_rem u v).
-   Missing part: the branch  thrD <= length v  of divLarge, i.e. divRecursive /
-   divRecursiveStep (Burnikel-Ziegler).  What would be needed:
-   C06_divRecursive : under the hypotheses of C06_divBasic,
-     divRecursive thrD thrK junk q u v = Some (q', u') with the same conclusion
-   (u0 = q·v + r, 0 <= r < v), which in turn needs "q̂ of a block is at most 2 too
-   large" for rec_blocks and the final block, so that the two corrections suffice
-   and panic("impossible") is unreachable. *)
+(* CLOSED in Props/C06b.v (L2/DivRecLemmas.v, L2/DivRecProofs.v): C06_div for every
+   divisor length, C06_divRecursive, C06_divRecursiveStep, C06_divLarge_full.  Proving
+   them exposed defect F21 (final shift B instead of B-1 in divRecursiveStep), repaired
+   in /repo commit c57c937; the unrepaired step is refuted there by a computed witness. *)
 
 (* non-vacuity: concrete instances evaluated in the kernel *)
 Example C06_mul_witness :
